@@ -15,6 +15,6 @@ def run(ctx):
     ecu.remove_all(ctx)
     ecu.timer_rules(ctx)
     from rules import timing as TM
-    ctx.rule("R-WAKEUP-MIN", "the timer pass keeps the earliest pending deadline as its next wake-up", floor=2)
+    ctx.rule("R-WAKEUP-MIN", "the timer pass keeps the earliest pending deadline as its next wake-up", floor=1)
     TM.wakeup_min(ctx, ctx.prog.func("ElectronicControlUnit", "_async_job_thread"), tag="ECU ")
     return "registry iteration/removal discipline and timer arithmetic of ElectronicControlUnit"
